@@ -954,6 +954,9 @@ pub fn configs(tier: Tier) -> Vec<(Tcp2Cfg, u32)> {
     // transient device back-pressure exactly when a timer fires
     let blocked = Tcp2Cfg { allow_blocked_tick: true, len: [60, 20], ..b("blocked-at-timer") };
     let blocked_eth = Tcp2Cfg { allow_blocked_tick: true, eth: true, len: [60, 20], allow_stall: false, ..b("blocked-at-timer-eth") };
+    // keep-alive probes (one garbage octet at SND.NXT-1) interleaved with loss, zero windows, FINs
+    let ka = Tcp2Cfg { keep_alive_ms: Some(300), rx: [64, 16], len: [60, 20], ..b("keepalive-300ms-rx16") };
+    let ka2 = Tcp2Cfg { keep_alive_ms: Some(300), len: [60, 0], chunk: 25, ..b("keepalive-300ms-chunk25") };
     let reuse2 = Tcp2Cfg { prefix: 2, len: [60, 20], ..b("reuse-after-close") };
     // sweep of stream lengths against a 24-byte transmit ring and a 10-byte peer window: for
     // some lengths the final unsent chunk straddles the end of the ring storage at close()
@@ -961,6 +964,12 @@ pub fn configs(tier: Tier) -> Vec<(Tcp2Cfg, u32)> {
     for len in 40..=64usize {
         let name: &'static str = Box::leak(format!("txring24-rx10-len{}", len).into_boxed_str());
         v.push((Tcp2Cfg { rx: [64, 10], tx: [24, 64], len: [len, 0], ..b(name) }, sweep_k));
+    }
+    // streams that fill the peer's receive buffer exactly (once, twice): with a reader that
+    // pauses, everything is acknowledged with window 0 while nothing is left to send but the FIN
+    for (n, m) in [(8usize, 1usize), (16, 1), (40, 1), (41, 1), (16, 2), (10, 3)] {
+        let name: &'static str = Box::leak(format!("exact-fill-rx{}-x{}", n, m).into_boxed_str());
+        v.push((Tcp2Cfg { rx: [64, n], len: [n * m, 0], ..b(name) }, if tier == Tier::Quick { 2 } else { 3 }));
     }
     match tier {
         Tier::Quick => {
@@ -971,6 +980,8 @@ pub fn configs(tier: Tier) -> Vec<(Tcp2Cfg, u32)> {
             v.push((burst, 2));
             v.push((blocked, 2));
             v.push((blocked_eth, 2));
+            v.push((ka, 3));
+            v.push((ka2, 3));
             v.push((eth4, 2));
             v.push((eth6s, 2));
             v.push((small, 4));
@@ -998,6 +1009,8 @@ pub fn configs(tier: Tier) -> Vec<(Tcp2Cfg, u32)> {
             v.push((burst, 3));
             v.push((blocked, 3));
             v.push((blocked_eth, 3));
+            v.push((ka, 4));
+            v.push((ka2, 4));
             v.push((eth4, 3));
             v.push((eth6s, 3));
             v.push((small, 5));
